@@ -17,10 +17,13 @@ from . import common, seqx
 
 LEVEL = "model_checking"
 
-KEYS = ["FOO", "BAR", "AUTO_CD", "TERM"]
-# FOO: plain, set globally; BAR: plain, unset; AUTO_CD: registered bool with default; TERM: registered, no default
-SCOPE_VALS = {"FOO": ["s"], "BAR": ["s"], "AUTO_CD": [True], "TERM": ["s"]}
-SET_VALS = {"FOO": ["n"], "BAR": ["n"], "AUTO_CD": [True], "TERM": ["n"]}
+SYNC = "XONSH_SUBPROC_CMD_RAISE_ERROR"  # registered bool with default whose value is mirrored into ...
+PARTNER = "RAISE_SUBPROC_ERROR"  # ... this deprecated alias by the `sync=` mechanism
+KEYS = ["FOO", "BAR", "AUTO_CD", SYNC]
+OBSERVED = KEYS + [PARTNER]
+# FOO: plain, set globally; BAR: plain, unset; AUTO_CD: registered bool with default; SYNC: bool + synced alias
+SCOPE_VALS = {"FOO": ["s"], "BAR": ["s"], "AUTO_CD": [True], SYNC: [True]}
+SET_VALS = {"FOO": ["n"], "BAR": ["n"], "AUTO_CD": [True], SYNC: [True]}
 DEL = "<DELETE_VAR>"
 ABSENT = "<absent>"
 MAXNEST = 3
@@ -61,12 +64,14 @@ class Harness:
         # reference: base mapping + stack of (kind, dict)
         self.base = {"FOO": "g"}
         self.scopes = []
-        self.defaults = {"AUTO_CD": False}
+        self.defaults = {"AUTO_CD": False, SYNC: False, PARTNER: False}
         self.counter = 0
         self._obs = None
 
     # ------------------------------------------------------------ reference
     def m_read(self, k):
+        if k == PARTNER:
+            k = SYNC  # the alias mirrors the canonical variable in every layer
         # documented layering: overlays (innermost first) shadow swaps (innermost first) shadow global
         for kind, d in reversed(self.scopes):
             if kind == "overlay" and k in d:
@@ -82,6 +87,8 @@ class Harness:
 
     def m_explicit(self, k):
         """Value children receive: only explicitly set variables (defaults are not exported)."""
+        if k == PARTNER:
+            k = SYNC
         for kind, d in reversed(self.scopes):
             if kind == "overlay" and k in d:
                 return ABSENT if d[k] == DEL else d[k]
@@ -128,7 +135,7 @@ class Harness:
         det = env.detype()
         det_all = env.detype_all()
         it = set(env)
-        for k in KEYS:
+        for k in OBSERVED:
             try:
                 v = env[k]
             except KeyError:
@@ -147,7 +154,7 @@ class Harness:
 
     def expected_obs(self):
         out = {}
-        for k in KEYS:
+        for k in OBSERVED:
             v = self.m_read(k)
             e = self.m_explicit(k)
             out[k] = {
@@ -161,17 +168,20 @@ class Harness:
         return out
 
     def _detype(self, k, v):
-        if k == "AUTO_CD":
+        if k in ("AUTO_CD", SYNC, PARTNER):
             return "1" if v else ""
         return str(v)
 
     def check_obs(self, where):
         viols = []
         got, want = self.observe_raw(), self.expected_obs()
-        for k in KEYS:
+        for k in OBSERVED:
             for path in got[k]:
                 if got[k][path] != want[k][path]:
-                    kind = "masked" if any(d.get(k) == DEL for _, d in self.scopes) else ("scoped" if k in self.scoped_keys() else "unscoped")
+                    kk = SYNC if k == PARTNER else k
+                    kind = "masked" if any(d.get(kk) == DEL for _, d in self.scopes) else ("scoped" if kk in self.scoped_keys() else "unscoped")
+                    if k == PARTNER:
+                        kind = "synced-alias-" + kind
                     viols.append(
                         {
                             "key": f"read-path-agrees-with-reference:{path}:{kind}:{where}",
@@ -205,7 +215,7 @@ class Harness:
         self.scopes = []
         want = self.expected_obs()
         self.scopes = saved
-        for k in KEYS:
+        for k in OBSERVED:
             for path in other[k]:
                 if other[k][path] != want[k][path]:
                     viols.append(
